@@ -1,8 +1,8 @@
 SPECIFICATION Spec
 CONSTANTS
-  ReproDeviations = {"ClockLeaks"}
+  ReproDeviations = {"HistoryLeaks"}
   Formats = {"deb"}
-  MaxSrc = 0
-  MaxSteps = 4
+  MaxSrc = 1
+  MaxSteps = 5
 INVARIANTS Function
 CHECK_DEADLOCK FALSE
